@@ -26,7 +26,7 @@ RECURSIVE Flat(_)
 Flat(ss) == IF ss = <<>> THEN <<>> ELSE Head(ss) \o Flat(Tail(ss))
 
 St0(cfg) == [cfg |-> cfg, nodes |-> <<>>, pending |-> <<>>, pools |-> <<>>, placed |-> {}, opens |-> <<>>, created |-> <<>>,
-             home |-> {}, optsOf |-> {}, passOf |-> {}, inPass |-> FALSE, sameHome |-> FALSE, homeStage |-> "-", nopen |-> 0, nguard |-> 0]
+             home |-> {}, optsOf |-> {}, passOf |-> {}, ranNodes |-> <<>>, inPass |-> FALSE, sameHome |-> FALSE, allHomed |-> FALSE, homeStage |-> "-", nopen |-> 0, nguard |-> 0]
 Vs(guard, sigs) == [i \in DOMAIN sigs |-> V(guard, sigs[i])]
 
 Cnt0 == [opens |-> 0, opensJudged |-> 0, commits |-> 0, passesRan |-> 0, idempotent |-> 0, creates |-> 0, totals |-> 0]
@@ -44,22 +44,35 @@ SetHome(home, keys, c) == {x \in home : x.p \notin keys} \cup {[p |-> k, c |-> c
 (* Idempotence (derived form that follows from the statement): when every   *)
 (* pod a pass has to place was nominated, by the latest pass that ran, to   *)
 (* one and the same NodeClaim, and that NodeClaim is launched and not being *)
-(* deleted, the pass stores no NodeClaim - whatever lifecycle stage the     *)
-(* NodeClaim is in.                                                         *)
-SameHome(nodes, pending, home) ==
+(* deleted, and no pod was bound to it since, the pass stores no NodeClaim  *)
+(* - whatever lifecycle stage the NodeClaim is in.                          *)
+\* nothing was bound to NodeClaim c since the latest pass that ran (ran = the ground truth at the start of that pass)
+BoundThen(ran, c) == IF KnownClaim(ran, c) THEN Range(ran[NodeByClaim(ran, c)].bound) ELSE {}
+NoNewBinding(nodes, ran, c) == Range(nodes[NodeByClaim(nodes, c)].bound) \subseteq BoundThen(ran, c)
+SameHome(nodes, pending, home, ran) ==
     /\ pending # <<>>
     /\ \A i \in DOMAIN pending : HasHome(home, pending[i])
     /\ \A i, j \in DOMAIN pending : HomeOf(home, pending[i]) = HomeOf(home, pending[j])
-    /\ LET h == HomeOf(home, pending[1]) IN KnownClaim(nodes, h) /\ Alive(nodes[NodeByClaim(nodes, h)])
+    /\ LET h == HomeOf(home, pending[1]) IN KnownClaim(nodes, h) /\ Alive(nodes[NodeByClaim(nodes, h)]) /\ NoNewBinding(nodes, ran, h)
     /\ \A i \in DOMAIN pending : KnownPodMP(cfg, pending[i]) /\ Exact(cfg, PodOf(cfg, pending[i]))
     \* nothing else is being rescheduled (no pods on marked / deleting nodes)
+    /\ \A i \in DOMAIN nodes : (nodes[i].marked \/ nodes[i].deleting) => nodes[i].bound = <<>>
+
+(* Observation, never a verdict: every pending pod has a live home (possibly different ones), nothing else is being        *)
+(* rescheduled, and the re-run still stores a NodeClaim - first-fit re-packing in a different node order (a node's sort  *)
+(* name switches from the NodeClaim's to the Node's on registration).  The statement's first clause holds at that open.   *)
+AllHomed(nodes, pending, home, ran) ==
+    /\ pending # <<>>
+    /\ \A i \in DOMAIN pending : HasHome(home, pending[i]) /\ KnownClaim(nodes, HomeOf(home, pending[i]))
+                                   /\ Alive(nodes[NodeByClaim(nodes, HomeOf(home, pending[i]))])
+                                   /\ NoNewBinding(nodes, ran, HomeOf(home, pending[i]))
     /\ \A i \in DOMAIN nodes : (nodes[i].marked \/ nodes[i].deleting) => nodes[i].bound = <<>>
 
 TPassBegin ==
     /\ Ev.e = "PassBegin"
     /\ st' = [st EXCEPT !.nodes = Ev.nodes, !.pending = Ev.pending, !.pools = Ev.pools, !.placed = {}, !.opens = <<>>, !.created = <<>>,
-                        !.inPass = TRUE, !.sameHome = SameHome(Ev.nodes, Ev.pending, st.home),
-                        !.homeStage = IF SameHome(Ev.nodes, Ev.pending, st.home)
+                        !.inPass = TRUE, !.sameHome = SameHome(Ev.nodes, Ev.pending, st.home, st.ranNodes), !.allHomed = AllHomed(Ev.nodes, Ev.pending, st.home, st.ranNodes),
+                        !.homeStage = IF SameHome(Ev.nodes, Ev.pending, st.home, st.ranNodes)
                                       THEN Stage(Ev.nodes[NodeByClaim(Ev.nodes, HomeOf(st.home, Ev.pending[1]))]) ELSE "-"]
     /\ UNCHANGED <<viol, ntr, cnt>>
 
@@ -134,7 +147,7 @@ CreatedIn(pool) == \E i \in DOMAIN st.created : st.created[i].pool = pool
 
 TPassEnd ==
     /\ Ev.e = "PassEnd"
-    /\ st' = [st EXCEPT !.inPass = FALSE, !.nguard = @ + (IF Ev.ran THEN 1 ELSE 0)]
+    /\ st' = [st EXCEPT !.inPass = FALSE, !.nguard = @ + (IF Ev.ran THEN 1 ELSE 0), !.ranNodes = IF Ev.ran THEN st.nodes ELSE @]
     /\ viol' = viol
          \o (IF Ev.ran THEN Chk(G_C04_PassOnlyWhenSynced(st.nodes), "G_C04_PassOnlyWhenSynced",
                                   "unlaunched:" \o ToString(Cardinality(Unlaunched(st.nodes)))) ELSE <<>>)
@@ -144,6 +157,8 @@ TPassEnd ==
                 ELSE Vs("G_C03_OpenWithinLimits", SigsWithin(cfg, st.nodes, pl.pool, pl.limits, PendingOpts(pl.pool)))])
          \o (IF Ev.ran /\ st.sameHome /\ G_C04_PassOnlyWhenSynced(st.nodes)
              THEN Chk(Ev.created = 0 /\ Ev.opens = 0, "Inv_C04_Idempotent", "home:" \o st.homeStage) ELSE <<>>)
+         \o (IF Ev.ran /\ st.allHomed /\ ~st.sameHome /\ G_C04_PassOnlyWhenSynced(st.nodes)
+             THEN Chk(Ev.created = 0, "Obs_C04_RepackAddsNode", "several-homes") ELSE <<>>)
     /\ cnt' = [cnt EXCEPT !.passesRan = @ + (IF Ev.ran THEN 1 ELSE 0), !.idempotent = @ + (IF Ev.ran /\ st.sameHome THEN 1 ELSE 0)]
     /\ UNCHANGED ntr
 
@@ -163,7 +178,7 @@ TTotals ==
     /\ cnt' = [cnt EXCEPT !.totals = @ + 1]
     /\ UNCHANGED <<st, ntr>>
 
-Passive == {"Read", "Prov", "Tick", "Env", "Begin", "End", "Launch", "Marked", "Skip", "Note", "Panic"}
+Passive == {"Read", "Prov", "Tick", "Env", "Begin", "End", "Launch", "Marked", "Skip", "Note", "Panic", "Restart"}
 TPassive == Ev.e \in Passive /\ UNCHANGED <<st, viol, ntr, cnt>>
 
 TraceNext ==
